@@ -604,3 +604,22 @@ size_t ctl_read_varint_bad(const uint8_t* p, const uint8_t* end, uint32_t* value
     while (p < end && shift < 28) { uint8_t b = *p++; r |= (uint32_t)(b & 0x7F) << shift; if (!(b & 0x80)) { *value = r; return (size_t)(p - s); } shift += 7; }
     return 0;                                                     /* gives up before the fifth byte of a 32-bit value */
 }
+
+/* ---- R39 scaled extent (rules/scaledext.py) */
+static inline double carquet_read_f64_le(const uint8_t* p) { double d; memcpy(&d, p, 8); return d; }
+int scaledext_bad(const uint8_t* table, size_t table_size, int32_t count, const uint32_t* idx, double* out, int n) {
+    if (count <= 0 || table_size < (size_t)count * sizeof(float)) return -1;      /* promises 4 bytes per entry */
+    for (int i = 0; i < n; i++) {
+        if (idx[i] >= (uint32_t)count) return -1;
+        out[i] = carquet_read_f64_le(table + idx[i] * sizeof(double));
+    }
+    return 0;
+}
+int scaledext_good(const uint8_t* table, size_t table_size, int32_t count, const uint32_t* idx, double* out, int n) {
+    if (count <= 0 || table_size < (size_t)count * sizeof(double)) return -1;
+    for (int i = 0; i < n; i++) {
+        if (idx[i] >= (uint32_t)count) return -1;
+        out[i] = carquet_read_f64_le(table + idx[i] * sizeof(double));
+    }
+    return 0;
+}
